@@ -258,58 +258,71 @@ void replay_c05(const std::string &hist) {
 }
 
 // ------------------------------------------------------------------ C10: re-entrant callbacks
-// Every observer performs one fixed action each time it is invoked.
+// Every observer performs a fixed list of actions, in order, each time it is invoked.
 enum Act { A_NONE, A_SUBNEW, A_UNSUB, A_MUTE, A_UNMUTE, A_INVAL, A_NOTIFY, NACTS };
 const char *aname[] = {"none", "subnew", "unsub", "mute", "unmute", "inval", "notify"};
 struct Action { int act, target; };
+typedef std::vector<Action> Script;
 
 struct RSys {
     std::unique_ptr<Subject<int>> subject;
     std::vector<Subscription<int>> handles;       // index = observer id
-    std::vector<Action> actions;                  // per observer id (observers added during the run do nothing)
-    std::vector<std::pair<int, int>> log;         // (observer id, nesting depth) in call order
+    std::vector<Script> scripts;                  // per observer id (observers added during the run do nothing)
+    struct Call { int first, second, round; };    // observer id, nesting depth, serial number of the notify() call that made it
+    std::vector<Call> log;                        // in call order
+    std::vector<int> round_stack; int round_serial = 0;      // notify() is synchronous: the innermost notify in progress is the caller of a callback
+    void do_notify(int v) { round_stack.push_back(++round_serial); subject->notify(v); round_stack.pop_back(); }
+    std::vector<char> destroyed;                  // the observer object (its closure) has been destroyed by the Subject
     int depth = 0;
+    struct Token { RSys *sys; int id; bool armed = true; Token(RSys *s, int i) : sys(s), id(i) {} Token(const Token &o) : sys(o.sys), id(o.id), armed(o.armed) { const_cast<Token &>(o).armed = false; }
+                   ~Token() { if (armed) sys->destroyed[id] = 1; } };
 
-    // what the real callback does; must not touch its closure after the action (the action may destroy it)
+    // what the real callback does; works on copies only (an action may destroy the closure it was called through)
     void on_call(int me, Observer<int>::SelfView *self) {
-        log.push_back({me, depth});
-        Action a = me < (int)actions.size() ? actions[me] : Action{A_NONE, 0};
-        int t = a.target;
-        switch (a.act) {
-        case A_SUBNEW: subscribe_new(); break;
-        case A_UNSUB: if (handles[t].isValid()) handles[t].unsubscribe(); break;
-        case A_MUTE: if (handles[t].isValid()) handles[t].mute(); break;
-        case A_UNMUTE: if (handles[t].isValid()) handles[t].unmute(); break;
-        case A_INVAL: if (t == me && self) (*self)->invalidate(); else if (handles[t].isValid()) handles[t].getObserver()->invalidate(); break;
-        case A_NOTIFY: if (depth < 2) { depth++; subject->notify(100 + depth); depth--; } break;
+        log.push_back({me, depth, round_stack.empty() ? 0 : round_stack.back()});
+        Script sc = me < (int)scripts.size() ? scripts[me] : Script{};
+        for (const Action &a : sc) {
+            int t = a.target;
+            switch (a.act) {
+            case A_SUBNEW: subscribe_new(); break;
+            case A_UNSUB: if (handles[t].isValid()) handles[t].unsubscribe(); break;
+            case A_MUTE: if (handles[t].isValid()) handles[t].mute(); break;
+            case A_UNMUTE: if (handles[t].isValid()) handles[t].unmute(); break;
+            case A_INVAL: if (t == me && self) { if (!destroyed[me]) (*self)->invalidate(); } else if (handles[t].isValid()) handles[t].getObserver()->invalidate(); break;
+            case A_NOTIFY: if (depth < 2) { depth++; do_notify(100 + depth); depth--; } break;
+            }
         }
     }
     void subscribe_new() {
         int id = (int)handles.size();
-        handles.emplace_back();
+        handles.emplace_back(); destroyed.push_back(0);
         RSys *sys = this;
-        if (id % 2 == 0) handles[id] = subject->subscribe([sys, id](Observer<int>::SelfView self, int) { RSys *s = sys; int me = id; s->on_call(me, &self); });
-        else handles[id] = subject->subscribe([sys, id](int) { RSys *s = sys; int me = id; s->on_call(me, nullptr); });
+        Token tok(this, id);
+        if (id % 2 == 0) handles[id] = subject->subscribe([sys, id, tok](Observer<int>::SelfView self, int) { RSys *s = sys; int me = id; s->on_call(me, &self); });
+        else handles[id] = subject->subscribe([sys, id, tok](int) { RSys *s = sys; int me = id; s->on_call(me, nullptr); });
     }
 };
 
 // reference simulation of the rounds as the property defines them, run in lockstep with the recorded call log
 struct RefSim {
     struct O { bool subscribed = true, muted = false, valid = true; int touched_in = -1; };
-    std::vector<O> obs; std::vector<Action> actions;
-    const std::vector<std::pair<int, int>> *log; size_t pos = 0; int depth = 0; int round_serial = 0;
+    std::vector<O> obs; std::vector<Script> scripts;
+    const std::vector<RSys::Call> *log; size_t pos = 0; int depth = 0; int round_serial = 0;
     std::string err;
 
     void act(int me) {
-        Action a = me < (int)actions.size() ? actions[me] : Action{A_NONE, 0};
-        int t = a.target;
-        switch (a.act) {
-        case A_SUBNEW: obs.push_back(O{}); break;
-        case A_UNSUB: if (obs[t].subscribed) obs[t].subscribed = false; break;
-        case A_MUTE: if (obs[t].subscribed) { obs[t].muted = true; obs[t].touched_in = round_serial; } break;
-        case A_UNMUTE: if (obs[t].subscribed) { obs[t].muted = false; obs[t].touched_in = round_serial; } break;
-        case A_INVAL: if (t == me || obs[t].subscribed) { obs[t].valid = false; obs[t].touched_in = round_serial; } break;
-        case A_NOTIFY: if (depth < 2) { depth++; round(); depth--; } break;
+        Script sc = me < (int)scripts.size() ? scripts[me] : Script{};
+        for (const Action &a : sc) {
+            int t = a.target;
+            switch (a.act) {
+            case A_SUBNEW: obs.push_back(O{}); break;
+            case A_UNSUB: if (obs[t].subscribed) obs[t].subscribed = false; break;
+            case A_MUTE: if (obs[t].subscribed) { obs[t].muted = true; obs[t].touched_in = round_serial; } break;
+            case A_UNMUTE: if (obs[t].subscribed) { obs[t].muted = false; obs[t].touched_in = round_serial; } break;
+            case A_INVAL: if (obs[t].subscribed) { obs[t].valid = false; obs[t].touched_in = round_serial; } break;
+            case A_NOTIFY: if (depth < 2) { depth++; round(); depth--; } break;
+            }
+            if (!err.empty()) return;
         }
     }
     void round() {
@@ -319,7 +332,9 @@ struct RefSim {
             if (!obs[i].subscribed) continue;                         // removed before its turn: skipped
             bool expect = !obs[i].muted && obs[i].valid;
             bool dontcare = obs[i].touched_in >= my_round;            // muted/unmuted/invalidated during this round before its turn
-            bool called = pos < log->size() && (*log)[pos].first == (int)i && (*log)[pos].second == depth;
+            // the harness numbers the notify() calls in execution order and every logged call carries the number of the notify that made it, so consecutive nested rounds cannot be confused
+            bool called = pos < log->size() && (*log)[pos].first == (int)i && (*log)[pos].second == depth && (*log)[pos].round == my_round;
+            if (called && !obs[i].valid) { err = fmt("observer %zu was invalidated earlier and must never be invoked again, but the implementation invoked it (call #%zu of the log, nesting depth %d)", i, pos, depth); return; }
             if (!dontcare && expect != called) {
                 err = fmt("observer %zu (nesting depth %d) %s, but the implementation %s it (call #%zu of the log)", i, depth, expect ? "is subscribed, valid and unmuted and must be invoked" : "must not be invoked", called ? "invoked" : "did not invoke", pos);
                 return;
@@ -330,72 +345,100 @@ struct RefSim {
     }
 };
 
-std::string cfg_str(int n, unsigned mutemask, const std::vector<Action> &acts) {
+std::string cfg_str(int n, unsigned mutemask, const std::vector<Script> &scripts) {
     std::string s = fmt("reentrant n=%d muted=%u :", n, mutemask);
-    for (auto &a : acts) s += fmt(" %s%d", aname[a.act], a.target);
+    for (auto &sc : scripts) { s += " "; if (sc.empty()) s += "none0"; for (size_t i = 0; i < sc.size(); i++) s += fmt("%s%s%d", i ? "+" : "", aname[sc[i].act], sc[i].target); }
     return s;
 }
 
-void run_config(int n, unsigned mutemask, const std::vector<Action> &acts) {
-    RSys sys; sys.subject = std::make_unique<Subject<int>>(); sys.actions = acts;
-    sys.handles.reserve(4096);
+void run_config(int n, unsigned mutemask, const std::vector<Script> &scripts) {
+    RSys sys; sys.subject = std::make_unique<Subject<int>>(); sys.scripts = scripts;
+    sys.handles.reserve(4096); sys.destroyed.reserve(4096);
     for (int i = 0; i < n; i++) sys.subscribe_new();
     for (int i = 0; i < n; i++) if (mutemask >> i & 1) sys.handles[i].mute();
-    sys.subject->notify(1);
-    sys.subject->notify(2);
-    RefSim ref; ref.actions = acts; ref.obs.resize(n); ref.log = &sys.log;
+    sys.do_notify(1);
+    sys.do_notify(2);
+    RefSim ref; ref.scripts = scripts; ref.obs.resize(n); ref.log = &sys.log;
     for (int i = 0; i < n; i++) ref.obs[i].muted = mutemask >> i & 1;
     ref.round(); if (ref.err.empty()) ref.round();
     if (ref.err.empty() && ref.pos != sys.log.size()) ref.err = fmt("the implementation made %zu calls, the rounds as defined by the property explain only the first %zu", sys.log.size(), ref.pos);
     if (!ref.err.empty()) {
-        std::string l; for (auto &c : sys.log) l += fmt("%d@%d ", c.first, c.second);
-        violation("reentrant:round-semantics", ref.err + "; call log (observer@depth): " + l);
+        std::string l; for (auto &c : sys.log) l += fmt("%d@%d/r%d ", c.first, c.second, c.round);
+        violation("reentrant:round-semantics", ref.err + "; call log (observer@depth/notify serial): " + l);
     }
     // consistency afterwards: handles agree with the model, subject still usable
     if (sys.handles.size() >= 4096) violation("harness:too-many-observers", "more than 4096 observers were created; raise the reservation");
     for (size_t i = 0; i < ref.obs.size() && i < sys.handles.size(); i++)
         if (ref.obs[i].valid && sys.handles[i].isValid() != ref.obs[i].subscribed) violation("reentrant:handle-valid", fmt("after the rounds handle %zu reports isValid() == %d, expected %d", i, sys.handles[i].isValid(), ref.obs[i].subscribed));
+    for (size_t i = 0; i < ref.obs.size() && i < sys.destroyed.size(); i++)
+        if (ref.obs[i].subscribed && sys.destroyed[i]) violation("reentrant:destroyed-while-subscribed", fmt("observer %zu is still subscribed according to the rounds, but its object has been destroyed", i));
     sys.subject.reset();
+    for (size_t i = 0; i < sys.destroyed.size(); i++) if (!sys.destroyed[i]) violation("reentrant:leaked-observer", fmt("observer %zu was not destroyed although the Subject is gone", i));
 }
 
 std::vector<Action> menu(int n) {
-    std::vector<Action> m{{A_NONE, 0}, {A_SUBNEW, 0}, {A_NOTIFY, 0}};
+    std::vector<Action> m{{A_SUBNEW, 0}, {A_NOTIFY, 0}};
     for (int t = 0; t < n; t++) for (int a : {A_UNSUB, A_MUTE, A_UNMUTE, A_INVAL}) m.push_back(Action{a, t});
     return m;
 }
+// every action list of length 0..maxlen over the menu
+std::vector<Script> scripts_upto(int n, int maxlen) {
+    auto m = menu(n);
+    std::vector<Script> out{{}}; size_t from = 0;
+    for (int l = 1; l <= maxlen; l++) { size_t to = out.size(); for (size_t i = from; i < to; i++) for (auto &a : m) { Script sc = out[i]; sc.push_back(a); out.push_back(sc); } from = to; }
+    return out;
+}
 
 void explore_c10() {
-    int maxn = thorough() ? 4 : 3;
-    for (int n = 1; n <= maxn; n++) {
-        auto m = menu(n);
-        std::vector<size_t> idx(n, 0);
-        for (;;) {
-            std::vector<Action> acts; for (int i = 0; i < n; i++) acts.push_back(m[idx[i]]);
-            bool uses_unmute = false; for (auto &a : acts) uses_unmute |= a.act == A_UNMUTE;
-            for (unsigned mask = 0; mask < (uses_unmute ? 1u << n : 1u); mask++) {
-                if (deadline_passed()) { shm->exhaustive = 0; return; }
-                mark(cfg_str(n, mask, acts));
-                run_config(n, mask, acts);
-                shm->evaluations++; shm->transitions += 2; shm->states++;
-                bool nontriv = false; for (auto &a : acts) nontriv |= a.act != A_NONE;
-                if (nontriv) shm->nontrivial++;
-                if (shm->evaluations % 1501 == 7) sample(cfg_str(n, mask, acts));
-            }
-            int i = 0; while (i < n && ++idx[i] == m.size()) idx[i++] = 0;
-            if (i == n) break;
-        }
+    // (observers, actions per callback): more observers with shorter lists, fewer observers with longer lists
+    std::vector<std::pair<int, int>> shapes = thorough() ? std::vector<std::pair<int, int>>{{1, 7}, {2, 3}, {3, 2}, {4, 1}} : std::vector<std::pair<int, int>>{{1, 6}, {2, 2}, {3, 1}};
+    if (const char *e = getenv("VERIF_C10_SHAPES")) {      // experiments only: "1x4,2x2"
+        shapes.clear(); int a, b; const char *q = e;
+        while (sscanf(q, "%dx%d", &a, &b) == 2) { shapes.push_back({a, b}); q = strchr(q, ','); if (!q) break; q++; }
     }
+    std::vector<std::function<void()>> tasks;
+    std::string shape_txt;
+    for (auto [n, len] : shapes) {
+        shape_txt += fmt("%s%d observers x <=%d actions", shape_txt.empty() ? "" : ", ", n, len);
+        auto opts = scripts_upto(n, len);
+        size_t parts = opts.size() >= 16 && n > 1 ? 16 : 1;
+        for (size_t part = 0; part < parts; part++) tasks.push_back([=] {
+            std::vector<size_t> idx(n, 0);
+            for (size_t first = part; first < opts.size(); first += parts) {
+                idx.assign(n, 0); idx[0] = first;
+                for (;;) {
+                    std::vector<Script> scripts; for (int i = 0; i < n; i++) scripts.push_back(opts[idx[i]]);
+                    bool uses_unmute = false, nontriv = false; for (auto &sc : scripts) for (auto &a : sc) { uses_unmute |= a.act == A_UNMUTE; nontriv = true; }
+                    for (unsigned mask = 0; mask < (uses_unmute ? 1u << n : 1u); mask++) {
+                        if (deadline_passed()) { shm->exhaustive = 0; return; }
+                        mark(cfg_str(n, mask, scripts));
+                        run_config(n, mask, scripts);
+                        shm->evaluations++; shm->transitions += 2; shm->states++;
+                        if (nontriv) shm->nontrivial++;
+                        if (shm->evaluations % 150001 == 7) sample(cfg_str(n, mask, scripts));
+                    }
+                    int i = 1; while (i < n && ++idx[i] == opts.size()) idx[i++] = 0;
+                    if (i >= n) break;
+                }
+            }
+        });
+    }
+    parallel(tasks);
     shm->validated = shm->evaluations;
-    sx::detail(fmt("every assignment of one action per callback (none, subscribe a new observer, nested notify up to depth 2, unsubscribe/mute/unmute/invalidate any target incl. itself) for 1..%d observers, two consecutive rounds each, "
-               "every initial mute mask where unmute is used; states = configurations, transitions = rounds", maxn));
+    sx::detail("every assignment of an action LIST per callback (actions: subscribe a new observer, nested notify up to depth 2, unsubscribe/mute/unmute/invalidate any target incl. itself; performed in order on every invocation) for the shapes " + shape_txt +
+               "; two consecutive rounds each, every initial mute mask where unmute is used; observer objects must be destroyed exactly when they leave; states = configurations, transitions = rounds");
 }
 
 void replay_c10(const std::string &hist) {
     int n; unsigned mask;
     if (sscanf(hist.c_str(), "reentrant n=%d muted=%u :", &n, &mask) != 2) { violation("replay:parse", "cannot parse " + hist); return; }
-    std::stringstream ss(hist.substr(hist.find(':') + 1)); std::string tok; std::vector<Action> acts;
-    while (ss >> tok) for (int a = 0; a < NACTS; a++) { size_t l = strlen(aname[a]); if (tok.compare(0, l, aname[a]) == 0 && tok.size() > l && isdigit((unsigned char)tok[l])) acts.push_back(Action{a, atoi(tok.c_str() + l)}); }
-    run_config(n, mask, acts);
+    std::stringstream ss(hist.substr(hist.find(':') + 1)); std::string tok; std::vector<Script> scripts;
+    while (ss >> tok) {
+        Script sc; std::stringstream ts(tok); std::string one;
+        while (std::getline(ts, one, '+')) for (int a = 1; a < NACTS; a++) { size_t l = strlen(aname[a]); if (one.compare(0, l, aname[a]) == 0 && one.size() > l && isdigit((unsigned char)one[l])) sc.push_back(Action{a, atoi(one.c_str() + l)}); }
+        scripts.push_back(sc);
+    }
+    run_config(n, mask, scripts);
 }
 }  // namespace
 
@@ -405,7 +448,7 @@ int main(int argc, char **argv) {
     Harness h;
     if (c10) {
         h.name = "subject-reentrant";
-        h.rule = "complete enumeration: for n = 1..N observers on one Subject<int>, every assignment of one action per callback from the menu and every relevant initial mute mask; two notify rounds each; the recorded call log is replayed against a "
+        h.rule = "complete enumeration: for n = 1..N observers on one Subject<int>, every assignment of an action list (up to the stated length) per callback from the menu and every relevant initial mute mask; two notify rounds each; the recorded call log is replayed against a "
                  "reference simulation of the rounds as the property defines them (membership fixed at entry, removed-before-turn skipped, added-during-round first called next round); whether an observer muted/unmuted/invalidated DURING a round "
                  "before its turn is still called in that round is left open, as in the property; everything runs under AddressSanitizer; non-trivial = some callback does something";
         h.assumptions = {"callbacks do not touch their own closure after an action that may destroy it", "handles are only used while valid (mute/unsubscribe through a stale handle is outside the property)", "nesting of notify bounded by 2, observers bounded as stated"};
